@@ -1,4 +1,5 @@
-\* exhaustive, thorough: every declaration with <= 2 fields over 8 base types x 6 wrapper stacks x renames; every literal with <= 6 nodes, nesting <= 4
+\* exhaustive, thorough: every declaration with <= 2 fields over 8 base types x 6 wrapper stacks x {none, 3 renames} x route, every combination of values;
+\* every json! literal with <= 6 nodes (any nesting), <= 3 items per container, leaves {null, 1, "s"}
 CONSTANTS
   Dev = {}
   Modes = {"decl", "lit"}
@@ -8,7 +9,7 @@ CONSTANTS
   DocSet = {FALSE}
   Family = "all"
   MaxFields = 2
-  MaxDepth = 4
+  MaxDepth = 6
   MaxItems = 3
   MaxNodes = 6
   Leaves = {1, 2}
